@@ -80,6 +80,16 @@ def main():
     args = ap.parse_args()
     names = args.names or sorted(os.listdir(os.path.join(HERE, "seeded")))
     names = [n for n in names if os.path.isdir(os.path.join(HERE, "seeded", n))]
+    if not args.names:
+        def live(n):
+            try:
+                return "obsolete_after" not in json.load(open(os.path.join(HERE, "seeded", n, "meta.json")))
+            except Exception:
+                return True
+        skipped = [n for n in names if not live(n)]
+        names = [n for n in names if live(n)]
+        if skipped:
+            print("skipping obsolete entries:", ", ".join(skipped))
     os.makedirs(SCRATCH, exist_ok=True)
     with cf.ThreadPoolExecutor(args.jobs) as ex:
         for r in ex.map(lambda n: evaluate(n, args), names):
